@@ -133,7 +133,7 @@ impl Prop for C03 {
         "C03"
     }
     fn cases(&self, tier: Tier) -> u64 {
-        tier.pick(1_000_000, 4_000_000)
+        tier.pick(1_000_000, 20_000_000)
     }
     fn strategy(&self, _tier: Tier) -> BoxedStrategy<Case> {
         let angles = prop_oneof![
